@@ -88,6 +88,17 @@ def collect_regions():
     loops={'in m._dsl.adjacency.items()':Loop(invariant=["forall(k, at(s._dsl.all_adjacency,k) == ((pre(at(s._dsl.all_adjacency,k)) | at(m._dsl.adjacency,k)) if k in seen else pre(at(s._dsl.all_adjacency,k))))"],
              modifies=['s._dsl.all_adjacency'])},
     property_ids=('C15','C08'), sample=False, note="region: the `if isinstance(m, ComponentLevel3)` statement of _collect_vars; dropped: the preceding super()._collect_vars(m) call"),
+   Contract(f'{L[2]}::ComponentLevel2._collect_vars@constraints', region=('s._dsl.all_update_ff |= m._dsl.update_ff','s._dsl.all_upblk_reads.update('), view={'s':TopT,'m':MT},
+    cases=[Case('component', requires='True',
+      ensures="s._dsl.all_update_ff == old(s._dsl.all_update_ff) | m._dsl.update_ff and "
+              "forall(k, at(s._dsl.all_RD_U_constraints,k) == old(at(s._dsl.all_RD_U_constraints,k)) | at(m._dsl.RD_U_constraints,k)) and "
+              "forall(k, at(s._dsl.all_WR_U_constraints,k) == old(at(s._dsl.all_WR_U_constraints,k)) | at(m._dsl.WR_U_constraints,k))", source=S)],
+    modifies=['s._dsl.all_update_ff','s._dsl.all_RD_U_constraints','s._dsl.all_WR_U_constraints'], returns=None,
+    loops={'in m._dsl.RD_U_constraints.items()':Loop(invariant=["forall(k, at(s._dsl.all_RD_U_constraints,k) == ((pre(at(s._dsl.all_RD_U_constraints,k)) | at(m._dsl.RD_U_constraints,k)) if k in seen else pre(at(s._dsl.all_RD_U_constraints,k))))"],
+             modifies=['s._dsl.all_RD_U_constraints']),
+           'in m._dsl.WR_U_constraints.items()':Loop(invariant=["forall(k, at(s._dsl.all_WR_U_constraints,k) == ((pre(at(s._dsl.all_WR_U_constraints,k)) | at(m._dsl.WR_U_constraints,k)) if k in seen else pre(at(s._dsl.all_WR_U_constraints,k))))"],
+             modifies=['s._dsl.all_WR_U_constraints'])},
+    property_ids=('C15',), sample=False, note="region inside `if isinstance(m, ComponentLevel2)`: the update_ff union and the two constraint loops of _collect_vars; dropped: the super() call before it and the read/write/call maps with the function-call closure after it"),
    Contract(f'{L[4]}::ComponentLevel4._collect_vars@own', region=('if isinstance(m, ComponentLevel4)',None), view={'s':TopT,'m':MT},
     cases=[Case('component', requires='True',
       ensures="s._dsl.all_update_once == old(s._dsl.all_update_once) | m._dsl.update_once and s._dsl.all_M_constraints == old(s._dsl.all_M_constraints) | m._dsl.M_constraints", source=S)],
